@@ -96,3 +96,14 @@ func ErrKind(err error) string {
 	}
 	return "other:" + s
 }
+
+// ErrPaths renders the path fields an error embeds.
+func ErrPaths(err error) string {
+	switch e := err.(type) {
+	case *fs.PathError:
+		return e.Path
+	case *os.LinkError:
+		return e.Old + "|" + e.New
+	}
+	return ""
+}
